@@ -171,7 +171,9 @@ def decodeParam : (fuel : Nat) → Param → DecM PVal
         pure (PVal.atom v)
       | .physConst dop value => do
         let v ← decodeDop fuel dop
-        if !(pvalEq v value) then odxraise .decode
+        if !(pvalEq v value) then
+          (if numericPair v value then raise .unmodelled            -- Python `!=` on numbers (-0.0 == 0.0)
+           else odxraise .decode)
         pure v
       | .value dop _ => decodeDop fuel dop
       | .reserved bl => do
